@@ -6,6 +6,7 @@ package verifhook
 
 import (
 	"net"
+	"sync"
 	"sync/atomic"
 	"time"
 )
@@ -113,4 +114,24 @@ func Listen(network, addr string) (net.Listener, error, bool) {
 		return (*f)(network, addr)
 	}
 	return nil, nil, false
+}
+
+var knobs sync.Map
+
+// SetKnob sets a tuning knob the simulator wants changed from its shipped
+// value (e.g. a threshold too large for a simulated run to reach); ClearKnobs
+// removes them all.
+func SetKnob(name string, v int64) { knobs.Store(name, v) }
+
+// ClearKnobs removes every knob.
+func ClearKnobs() {
+	knobs.Range(func(k, _ interface{}) bool { knobs.Delete(k); return true })
+}
+
+// Knob returns the simulator's value for name, or def when none was set.
+func Knob(name string, def int64) int64 {
+	if v, ok := knobs.Load(name); ok {
+		return v.(int64)
+	}
+	return def
 }
